@@ -62,6 +62,13 @@ def subjects():
         setup = [_stack("manual", [RETRY]), ["submit", "ex", "S", {"script": script}], ["run", "ex", 0]]
         comp = [["sleep", 0.5]] + ([["run", "ex", 1]] if kind != "cancel" else [["complete", "ex.base.j1", "cancel"]])
         S["retry/between"]["variants"][kind] = {"setup": setup, "complete": comp}
+    # retry, while an attempt is failing and being re-queued (the completion the actors race with is the FIRST, failing attempt)
+    S["retry/attempt-fails"] = {"variants": {}}
+    for kind in ("value", "error", "cancel"):
+        script = [["raise", "E0"], ["tag"]] if kind != "error" else [["raise", "E0"], ["raise", "E2"]]
+        setup = [_stack("manual", [RETRY]), ["submit", "ex", "S", {"script": script}]]
+        comp = [["run", "ex", 0], ["sleep", 0.5]] + ([["run", "ex", 1]] if kind != "cancel" else [["complete", "ex.base.j1", "cancel"]])
+        S["retry/attempt-fails"]["variants"][kind] = {"setup": setup, "complete": comp}
     # flat_map, stage 2: waiting for the future the function returned
     S["flat_map/stage2"] = {"variants": {}}
     for kind in ("value", "error", "cancel"):
